@@ -151,6 +151,59 @@ fn seq_case(idx: u64, alg: Algorithm, a: &[u32], b: &[u32], threads: bool, out: 
         }
         Err(p) => out.violation("panic", format!("{} | {}", p, ctx())),
     }
+    // (f) the crate's own integer mapping as a relabelling.  First relabel by rank of first
+    // occurrence (old, then new); IdentifyDistinct then hands out exactly those ranks, i.e. it is
+    // the identity on the values - an order-preserving injective relabelling by construction.
+    {
+        let mut rank: std::collections::HashMap<u32, u32> = std::collections::HashMap::new();
+        let mut rk = |x: u32| -> u32 {
+            let n = rank.len() as u32;
+            *rank.entry(x).or_insert(n)
+        };
+        let ra: Vec<u32> = a.iter().map(|x| rk(*x)).collect();
+        let rb: Vec<u32> = b.iter().map(|x| rk(*x)).collect();
+        out.evals_add(2);
+        let direct = guard(|| capture_diff_slices(alg, &ra, &rb));
+        let mapped = guard(|| {
+            let h = similar::algorithms::IdentifyDistinct::<u32>::new(&ra[..], 0..ra.len(), &rb[..], 0..rb.len());
+            capture_diff(alg, h.old_lookup(), h.old_range(), h.new_lookup(), h.new_range())
+        });
+        match (&direct, &mapped) {
+            (Ok(d), Ok(m)) => {
+                out.count("identify_distinct_relabellings");
+                if d != m {
+                    out.violation(
+                        "determinism.relabel_identify_distinct",
+                        format!("items relabelled by IdentifyDistinct::<u32> (ids = ranks of first occurrence = the values themselves): {} but the direct diff gives {} | alg={} old={} new={}", fmt_ops(m), fmt_ops(d), alg_name(alg), fmt_seq(&ra), fmt_seq(&rb)),
+                    );
+                }
+            }
+            (Err(p), _) | (_, Err(p)) => out.violation("panic", format!("{} | {}", p, ctx())),
+        }
+    }
+    // (g) relabelled to LINE TOKENS of a text diff: zero-padded str lines, and lines of a
+    // user-defined text type whose equal tokens differ in bytes (per-occurrence letter case)
+    if a.len() + b.len() > 0 && (a.len().max(b.len()) > 100 || idx % 4 == 0) {
+        use crate::odd_str::{recase, OddStr};
+        let ta: String = a.iter().map(|x| format!("tok{:010}\n", (*x as u64) * 7 + 3)).collect();
+        let tb: String = b.iter().map(|x| format!("tok{:010}\n", (*x as u64) * 7 + 3)).collect();
+        let oa: String = a.iter().enumerate().map(|(i, x)| recase(&format!("tok{:010}\n", (*x as u64) * 7 + 3), i as u64 * 2 + 1)).collect();
+        let ob: String = b.iter().enumerate().map(|(i, x)| recase(&format!("tok{:010}\n", (*x as u64) * 7 + 3), i as u64 * 2 + 2)).collect();
+        out.evals_add(2);
+        let plain = guard(|| TextDiff::configure().algorithm(alg).diff_lines(&ta, &tb).ops().to_vec());
+        let odd = guard(|| TextDiff::configure().algorithm(alg).diff_lines(OddStr::new(&oa), OddStr::new(&ob)).ops().to_vec());
+        for (r, what) in [(&plain, "str lines"), (&odd, "lines of a user-defined DiffableStr (case-insensitive Eq, per-occurrence letter case)")] {
+            match r {
+                Ok(o) => {
+                    out.count("text_line_relabellings");
+                    if *o != base {
+                        out.violation("determinism.relabel_text_lines", format!("relabelled to {}: {} instead of {} | {}", what, fmt_ops(o), fmt_ops(&base), ctx()));
+                    }
+                }
+                Err(p) => out.violation("panic", format!("{} | {}", p, ctx())),
+            }
+        }
+    }
     // aliasing must not matter: old and new as two views of ONE buffer with a common start
     // (prefix vs whole) give the ops of the same items held in separate vectors
     {
